@@ -78,6 +78,7 @@ type Stats struct {
 
 type HarnessRun struct {
 	Name        string
+	usesGuard   bool // the harness declared lock-guarded state (validated under the race detector)
 	stats       Stats
 	violations  []*Violation
 	vioSeen     map[string]int
@@ -136,13 +137,19 @@ func NewEngine(repoDir, verifDir, tier string) *Engine {
 
 // addOverlays maps /verif/harness/<pkgpath>/*.go into /repo/<pkgpath>/ and the runtime into /repo/pkg/verifrt.
 func (e *Engine) addOverlays(pkgDirs []string) error {
-	rt, err := os.ReadFile(filepath.Join(e.verifDir, "rt", "rt.go"))
-	if err != nil {
-		return err
+	rtFiles, _ := filepath.Glob(filepath.Join(e.verifDir, "rt", "*.go"))
+	if len(rtFiles) == 0 {
+		return fmt.Errorf("runtime sources not found under %s/rt", e.verifDir)
 	}
-	v := filepath.Join(e.repoDir, "pkg", "verifrt", "rt.go")
-	e.overlay[v] = rt
-	e.overlayReal[v] = filepath.Join(e.verifDir, "rt", "rt.go")
+	for _, f := range rtFiles {
+		b, err := os.ReadFile(f)
+		if err != nil {
+			return err
+		}
+		v := filepath.Join(e.repoDir, "pkg", "verifrt", filepath.Base(f))
+		e.overlay[v] = b
+		e.overlayReal[v] = f
+	}
 	// common helper package(s) living under rt/<name>/ are mapped to pkg/verifrt/<name>/
 	ents, _ := os.ReadDir(filepath.Join(e.verifDir, "rt"))
 	for _, en := range ents {
@@ -270,6 +277,7 @@ func (ex *Exec) resetPath() {
 	ex.symSeq = 0
 	ex.mapSeq = 0
 	ex.syncMaps = nil
+	ex.locks, ex.guards, ex.guardedMaps = nil, nil, nil
 	ex.globals = map[*ssa.Global]*Cell{}
 	ex.nondets = nil
 	ex.occ = map[string]int{}
